@@ -552,25 +552,29 @@ func (d *Downstream) resume(parentConn *Conn) error {
 	}
 	d.wireConn = parentConn.wireConn
 
+	// 購読はコネクションに対して1度だけ行います。
+	// （リトライのたびに購読すると、RESUME_REQUEST_CONFLICT後の再試行が"already subscribed"で失敗します）
+	dpsCh, err := d.wireConn.SubscribeDownstreamChunk(d.ctx, d.idAlias, d.Config.QoS)
+	if err != nil {
+		err = fmt.Errorf("failed to SubscribeDownstreamChunk: %w", err)
+		d.closeWithError(d.ctx, err)
+		return err
+	}
+	ackCompCh, err := d.wireConn.SubscribeDownstreamChunkAckComplete(d.ctx, d.idAlias)
+	if err != nil {
+		err = fmt.Errorf("failed to SubscribeDownstreamChunkAckComplete: %w", err)
+		d.closeWithError(d.ctx, err)
+		return err
+	}
+	metaCh, err := parentConn.subscribeDownstreamMetadata(d.ctx, d.idAlias, d.Config.Filters)
+	if err != nil {
+		err = fmt.Errorf("failed to subscribeDownstreamMetadata: %w", err)
+		d.closeWithError(d.ctx, err)
+		return err
+	}
+
 	var resErr error
 	retry.Do(func() (end bool) {
-		dpsCh, err := d.wireConn.SubscribeDownstreamChunk(d.ctx, d.idAlias, d.Config.QoS)
-		if err != nil {
-			resErr = fmt.Errorf("failed to SubscribeDownstreamChunk: %w", err)
-			return true
-		}
-		ackCompCh, err := d.wireConn.SubscribeDownstreamChunkAckComplete(d.ctx, d.idAlias)
-		if err != nil {
-			resErr = fmt.Errorf("failed to SubscribeDownstreamChunkAckComplete: %w", err)
-			return true
-		}
-
-		metaCh, err := parentConn.subscribeDownstreamMetadata(d.ctx, d.idAlias, d.Config.Filters)
-		if err != nil {
-			resErr = fmt.Errorf("failed to subscribeDownstreamMetadata: %w", err)
-			return true
-		}
-
 		resp, err := d.wireConn.SendDownstreamResumeRequest(d.ctx, &message.DownstreamResumeRequest{
 			StreamID:             d.ID,
 			DesiredStreamIDAlias: d.idAlias,
